@@ -87,8 +87,15 @@ let completions (os : obs list) =
   String.concat "," (List.filter_map (function OComplete (i, m) -> Some (Printf.sprintf "%d=%s" (int_of_nat i) (fmt_msg false m)) | _ -> None) os)
 
 let run_line single toks =
+  let base_of t p = let l = String.length p in
+    if String.length t > l && String.sub t 0 l = p then Some (int_of_string (String.sub t l (String.length t - l))) else None in
+  let (b, toks) = match toks with
+    | t :: rest -> (match base_of t "base=", base_of t "realbase=" with
+                    | Some b, _ | _, Some b -> (b, rest)
+                    | _ -> (1, toks))
+    | [] -> (1, toks) in
   let evs = List.map parse_item toks in
-  let st = ref init in
+  let st = ref (init_at (n_of_int b)) in
   let segs = List.map (fun it ->
       let (st', os) = (match it with
                        | Ev e -> (if single then step1 else step) !st e
